@@ -15,6 +15,12 @@ func (*inArray) Exit(node *Node) {
 		if n.Operator == "in" || n.Operator == "not in" {
 			if array, ok := n.Right.(*ArrayNode); ok {
 				if len(array.Nodes) > 0 {
+					if mayBeNil(n.Left) {
+						// A nil-safe access has a static int or string type
+						// but yields nil at run time; nil is not a valid key
+						// for the lookup map.
+						return
+					}
 					t := n.Left.Type()
 					if t == nil || t.Kind() != reflect.Int {
 						// This optimization can be only performed if left side is int type,
@@ -67,4 +73,19 @@ func (*inArray) Exit(node *Node) {
 			}
 		}
 	}
+}
+
+// mayBeNil reports whether node ends in a nil-safe chain.
+func mayBeNil(node Node) bool {
+	switch n := node.(type) {
+	case *IdentifierNode:
+		return n.NilSafe
+	case *PropertyNode:
+		return n.NilSafe || mayBeNil(n.Node)
+	case *MethodNode:
+		return n.NilSafe || mayBeNil(n.Node)
+	case *IndexNode:
+		return mayBeNil(n.Node)
+	}
+	return false
 }
